@@ -48,3 +48,9 @@ NOT_APPLICABLE = {
     "C19": "path confinement under symlinks is file-system state and lost-update freedom is thread interleavings; the one per-function kernel (normalize_workspace_path over std::path) did not fit Kani (4 symbolic bytes > 5 min) and Verus has no Path/str reasoning (DESIGN §4)",
     "C20": "interleavings of OS threads over Mutex/Condvar/mpsc; Kani has no threads and Verus would need the runner rewritten on its permission types, i.e. a model (DESIGN §4)",
 }
+
+# Properties whose units are designed (DESIGN §3) but not yet frozen into the baseline: not claimed until then.
+PENDING = ["C01", "C03", "C06", "C07", "C08", "C09", "C10", "C11", "C14", "C17", "C18"]
+for _p in PENDING:
+    if _p not in CLAIMS:
+        NOT_APPLICABLE[_p] = "not claimed yet: contract units designed in DESIGN.md §3 are still being built; listed here until the unit verifies on the unchanged tree and is frozen into the baseline"
